@@ -1553,8 +1553,7 @@ Proof.
       * assert (Hr : em_ok r) by (constructor; assumption). destruct (IH Hr) as [Hs2 Hn2].
         constructor; cbn [em_keys map].
         -- constructor; [exact Hs2|]. rewrite Forall_forall in *. intros x Hx. destruct (em_add_keys_in _ _ _ _ Hx) as [E|E].
-           ++ subst x. unfold key_lt. apply lex_ltb_total; [|exact El]. destruct (path_eqb k0 k) eqn:E2; [|reflexivity].
-              apply path_eqb_eq in E2. subst. rewrite path_eqb_refl in Ek. discriminate.
+           ++ subst x. unfold key_lt. cbn [fst]. apply lex_ltb_total; [exact Ek | exact El].
            ++ apply Hlt. exact E.
         -- constructor; assumption.
 Qed.
@@ -1653,4 +1652,244 @@ Proof.
   destruct Hh as [ts [Hin Ht]].
   apply (apply_rebased_complete cs _ origin dest eqs eqs' Hd (record_comp_rebased_nodup L icomp origin dest) H
            (origin ++ rk) ts rk rt i v1 v2 Hin Ht eq_refl E1 E2 Hne).
+Qed.
+
+(* ================================================================================== de-clash, at the level of the trees *)
+
+Definition subst1 (o n x : string) : string := if String.eqb x o then n else x.
+
+Lemma NoDup_app_inv : forall (A : Type) (a b : list A), NoDup (a ++ b) ->
+  NoDup a /\ NoDup b /\ forall x, In x a -> In x b -> False.
+Proof.
+  intros A a. induction a as [|y r IH]; intros b H; cbn [app] in H.
+  - split; [constructor | split; [exact H | intros x []]].
+  - inversion H as [|? ? Hy Hr]; subst. destruct (IH _ Hr) as [H1 [H2 H3]]. split.
+    + constructor; [intros Hin; apply Hy; apply in_or_app; left; exact Hin | exact H1].
+    + split; [exact H2|]. intros x [E|Hx] Hb; [subst; apply Hy; apply in_or_app; right; exact Hb | apply (H3 x Hx Hb)].
+Qed.
+Lemma NoDup_app_remove_r : forall (A : Type) (a b : list A), NoDup (a ++ b) -> NoDup a.
+Proof. intros A a b H. apply (NoDup_app_inv A a b H). Qed.
+Lemma NoDup_app_remove_l : forall (A : Type) (a b : list A), NoDup (a ++ b) -> NoDup b.
+Proof. intros A a b H. apply (NoDup_app_inv A a b H). Qed.
+Lemma NoDup_app_disjoint : forall (A : Type) (a b : list A), NoDup (a ++ b) -> forall x, In x a -> In x b -> False.
+Proof. intros A a b H. apply (NoDup_app_inv A a b H). Qed.
+Lemma NoDup_app_intro : forall (A : Type) (a b : list A), NoDup a -> NoDup b -> (forall x, In x a -> In x b -> False) -> NoDup (a ++ b).
+Proof.
+  intros A a. induction a as [|y r IH]; intros b Ha Hb Hd; cbn [app]; [exact Hb|]. inversion Ha as [|? ? Hy Hr]; subst. constructor.
+  - intros Hin. apply in_app_or in Hin. destruct Hin as [Hin|Hin]; [contradiction | apply (Hd y (or_introl eq_refl) Hin)].
+  - apply IH; [exact Hr | exact Hb|]. intros x Hx. apply Hd. right. exact Hx.
+Qed.
+
+Lemma comp_names_unfold : forall o n i m v kids, comp_names (Comp o n i m v kids) = n :: comps_names kids.
+Proof. reflexivity. Qed.
+
+Lemma rename_first_unfold' : forall n new o nm i m v kids,
+  rename_first n new (Comp o nm i m v kids) =
+  if String.eqb nm n then (Comp o new i m v kids, true)
+  else let (kids', d) := rename_first_in n new kids in (Comp o nm i m v kids', d).
+Proof.
+  intros n new o nm i m v kids. cbn [rename_first]. destruct (String.eqb nm n); [reflexivity|].
+  assert (E : forall l,
+    (fix go (l : list comp) : list comp * bool :=
+       match l with
+       | [] => ([], false)
+       | k :: r => let (k', d) := rename_first n new k in
+                   if d then (k' :: r, true) else let (r', d') := go r in (k :: r', d')
+       end) l = rename_first_in n new l).
+  { induction l as [|k r IHr]; [reflexivity|]. cbn [rename_first_in]. destruct (rename_first n new k) as [k' d]. destruct d; [reflexivity|].
+    rewrite IHr. reflexivity. }
+  rewrite E. reflexivity.
+Qed.
+
+(* when the names are pairwise distinct, renaming the first component called o renames "the" component called o *)
+Lemma rename_first_names : forall o new c, NoDup (comp_names c) ->
+  comp_names (fst (rename_first o new c)) = map (subst1 o new) (comp_names c) /\
+  (snd (rename_first o new c) = true <-> In o (comp_names c)).
+Proof.
+  intros o new c. induction c as [ow nm i m v kids IHk] using comp_ind3. intros Hnd.
+  rewrite rename_first_unfold'. rewrite comp_names_unfold in *. inversion Hnd as [|? ? Hnm Hkids]; subst.
+  assert (Hforest : forall l, Forall (fun c => NoDup (comp_names c) ->
+                       comp_names (fst (rename_first o new c)) = map (subst1 o new) (comp_names c) /\
+                       (snd (rename_first o new c) = true <-> In o (comp_names c))) l ->
+                    NoDup (comps_names l) ->
+                    comps_names (fst (rename_first_in o new l)) = map (subst1 o new) (comps_names l) /\
+                    (snd (rename_first_in o new l) = true <-> In o (comps_names l))).
+  { induction l as [|k r IHr]; intros Hall Hn; [split; [reflexivity | split; [discriminate | intros []]]|].
+    inversion Hall as [|? ? Hk Hr]; subst. unfold comps_names in Hn. cbn [flat_map] in Hn. fold (comps_names r) in Hn.
+    pose proof (NoDup_app_remove_r _ _ _ Hn) as Hn1. pose proof (NoDup_app_remove_l _ _ _ Hn) as Hn2.
+    destruct (Hk Hn1) as [Hk1 Hk2]. destruct (IHr Hr Hn2) as [Hr1 Hr2].
+    cbn [rename_first_in]. destruct (rename_first o new k) as [k' d] eqn:Ek. cbn [fst snd] in Hk1, Hk2. destruct d.
+    - cbn [fst snd]. unfold comps_names. cbn [flat_map]. fold (comps_names r). rewrite map_app, Hk1. split.
+      + f_equal. (* o is in k, hence not in r *)
+        assert (Ho : In o (comp_names k)) by (apply Hk2; reflexivity).
+        rewrite <- (map_id (comps_names r)) at 1. apply map_ext_in. intros x Hx. unfold subst1.
+        destruct (String.eqb x o) eqn:E; [|reflexivity]. apply String.eqb_eq in E. subst x. exfalso.
+        apply (NoDup_app_disjoint _ _ _ Hn o Ho Hx).
+      + split; [intros _; apply in_or_app; left; apply Hk2; reflexivity | reflexivity].
+    - destruct (rename_first_in o new r) as [r' d'] eqn:Er. cbn [fst snd] in *. unfold comps_names. cbn [flat_map]. fold (comps_names r) (comps_names r').
+      rewrite map_app, Hr1. split.
+      + f_equal. assert (Ho : ~ In o (comp_names k)) by (intros Hin; apply Hk2 in Hin; discriminate).
+        rewrite <- (map_id (comp_names k)) at 1. apply map_ext_in. intros x Hx. unfold subst1.
+        destruct (String.eqb x o) eqn:E; [|reflexivity]. apply String.eqb_eq in E. subst x. contradiction.
+      + rewrite Hr2. split; [intros H; apply in_or_app; right; exact H|].
+        intros H. apply in_app_or in H. destruct H as [H|H]; [apply Hk2 in H; discriminate | exact H]. }
+  destruct (String.eqb nm o) eqn:En.
+  - cbn [fst snd]. rewrite comp_names_unfold. apply String.eqb_eq in En. subst nm. cbn [map]. unfold subst1 at 1. rewrite String.eqb_refl. split.
+    + f_equal. rewrite <- (map_id (comps_names kids)) at 1. apply map_ext_in. intros x Hx. unfold subst1.
+      destruct (String.eqb x o) eqn:E; [|reflexivity]. apply String.eqb_eq in E. subst x. contradiction.
+    + split; [intros _; left; reflexivity | reflexivity].
+  - destruct (Hforest kids IHk Hkids) as [H1 H2]. destruct (rename_first_in o new kids) as [kids' d]. cbn [fst snd] in *.
+    rewrite comp_names_unfold. cbn [map]. unfold subst1 at 1. rewrite En. rewrite H1. split; [reflexivity|].
+    rewrite H2. split; [intros H; right; exact H|]. intros [H|H]; [subst; rewrite String.eqb_refl in En; discriminate | exact H].
+Qed.
+
+Lemma rename_first_in_names : forall o new l, NoDup (comps_names l) ->
+  comps_names (fst (rename_first_in o new l)) = map (subst1 o new) (comps_names l) /\
+  (snd (rename_first_in o new l) = true <-> In o (comps_names l)).
+Proof.
+  intros o new l. induction l as [|k r IHr]; intros Hn; [split; [reflexivity | split; [discriminate | intros []]]|].
+  unfold comps_names in Hn. cbn [flat_map] in Hn. fold (comps_names r) in Hn.
+  pose proof (NoDup_app_remove_r _ _ _ Hn) as Hn1. pose proof (NoDup_app_remove_l _ _ _ Hn) as Hn2.
+  destruct (rename_first_names o new k Hn1) as [Hk1 Hk2]. destruct (IHr Hn2) as [Hr1 Hr2].
+  cbn [rename_first_in]. destruct (rename_first o new k) as [k' d] eqn:Ek. cbn [fst snd] in Hk1, Hk2. destruct d.
+  - cbn [fst snd]. unfold comps_names. cbn [flat_map]. fold (comps_names r). rewrite map_app, Hk1. split.
+    + f_equal. assert (Ho : In o (comp_names k)) by (apply Hk2; reflexivity).
+      rewrite <- (map_id (comps_names r)) at 1. apply map_ext_in. intros x Hx. unfold subst1.
+      destruct (String.eqb x o) eqn:E; [|reflexivity]. apply String.eqb_eq in E. subst x. exfalso.
+      apply (NoDup_app_disjoint _ _ _ Hn o Ho Hx).
+    + split; [intros _; apply in_or_app; left; apply Hk2; reflexivity | reflexivity].
+  - destruct (rename_first_in o new r) as [r' d'] eqn:Er. cbn [fst snd] in *. unfold comps_names. cbn [flat_map]. fold (comps_names r) (comps_names r').
+    rewrite map_app, Hr1. split.
+    + f_equal. assert (Ho : ~ In o (comp_names k)) by (intros Hin; apply Hk2 in Hin; discriminate).
+      rewrite <- (map_id (comp_names k)) at 1. apply map_ext_in. intros x Hx. unfold subst1.
+      destruct (String.eqb x o) eqn:E; [|reflexivity]. apply String.eqb_eq in E. subst x. contradiction.
+    + rewrite Hr2. split; [intros H; apply in_or_app; right; exact H|].
+      intros H. apply in_app_or in H. destruct H as [H|H]; [apply Hk2 in H; discriminate | exact H].
+Qed.
+
+Lemma subst1_in : forall o n l x, In x (map (subst1 o n) l) -> x = n \/ (In x l /\ x <> o).
+Proof.
+  intros o n l x H. apply in_map_iff in H. destruct H as [y [E Hy]]. unfold subst1 in E. destruct (String.eqb y o) eqn:Ey.
+  - left. symmetry. exact E.
+  - right. subst x. split; [exact Hy | apply String.eqb_neq; exact Ey].
+Qed.
+
+Lemma subst1_nodup : forall o n l, NoDup l -> ~ In n l -> NoDup (map (subst1 o n) l).
+Proof.
+  intros o n l Hnd Hn. induction l as [|y r IH]; [constructor|]. inversion Hnd as [|? ? Hy Hr]; subst. cbn [map]. constructor.
+  - intros Hin. apply in_map_iff in Hin. destruct Hin as [z [Ez Hz]]. unfold subst1 in Ez.
+    destruct (String.eqb y o) eqn:Ey; destruct (String.eqb z o) eqn:Ezo.
+    + apply String.eqb_eq in Ey. apply String.eqb_eq in Ezo. subst. contradiction.
+    + subst z. apply Hn. right. exact Hz.
+    + subst y. apply Hn. left. reflexivity.
+    + subst z. contradiction.
+  - apply IH; [exact Hr|]. intros Hin. apply Hn. right. exact Hin.
+Qed.
+
+(* the state of the loop, seen through the names of the two forests.  N: names of the importing model; keys: all keys of the
+   map; rest: the keys still to come; P0: the names of the placeholder's children at the start *)
+Record dtree_inv (N keys rest P0 used : list string) (ck pk : list comp) : Prop := {
+  dt_ndc : NoDup (comps_names ck);
+  dt_ndp : NoDup (comps_names pk);
+  dt_used0 : incl (N ++ keys) used;
+  dt_used : incl (comps_names ck ++ comps_names pk) used;
+  dt_shared : forall x, In x (comps_names ck) -> In x (comps_names pk) -> In x rest;
+  dt_c : forall x, In x (comps_names ck) -> In x N -> In x rest;
+  dt_p : forall x, In x (comps_names pk) -> In x P0 \/ (~ In x N /\ ~ In x keys) }.
+
+Lemma declash_step_tree : forall fx N keys k rest P0 used ck pk done,
+  fx_clash fx = true -> incl P0 N -> In k keys ->
+  dtree_inv N keys (k :: rest) P0 used ck pk ->
+  exists ck' pk' used' done', declash_step fx N (FOk (ck, pk, used, done)) k = FOk (ck', pk', used', done') /\
+                              dtree_inv N keys rest P0 used' ck' pk'.
+Proof.
+  intros fx N keys k rest P0 used ck pk done Hfx HP0 Hk [Hc Hp Hu0 Hu Hsh Hcn Hpn]. unfold declash_step. cbn [fbind].
+  destruct (mem_str k N) eqn:Em.
+  - rewrite Hfx. destruct (find_free_total used k 1) as [new Hnew]. rewrite Hnew.
+    destruct (find_free_some _ _ _ _ _ Hnew) as [Hfresh _].
+    assert (HnN : ~ In new N) by (intros H; apply Hfresh; apply Hu0; apply in_or_app; left; exact H).
+    assert (Hnk : ~ In new keys) by (intros H; apply Hfresh; apply Hu0; apply in_or_app; right; exact H).
+    assert (HnC : ~ In new (comps_names ck)) by (intros H; apply Hfresh; apply Hu; apply in_or_app; left; exact H).
+    assert (HnP : ~ In new (comps_names pk)) by (intros H; apply Hfresh; apply Hu; apply in_or_app; right; exact H).
+    destruct (rename_first_in_names k new ck Hc) as [Hc1 Hc2].
+    destruct (rename_first_in k new ck) as [ck' d] eqn:Er. cbn [fst snd] in Hc1, Hc2. destruct d.
+    + (* the component is in the copy *)
+      assert (HkC : In k (comps_names ck)) by (apply Hc2; reflexivity).
+      eexists _, _, _, _. split; [reflexivity|]. constructor.
+      * rewrite Hc1. apply subst1_nodup; assumption.
+      * exact Hp.
+      * intros x Hx. apply in_or_app. left. apply Hu0. exact Hx.
+      * intros x Hx. apply in_app_or in Hx. destruct Hx as [Hx|Hx].
+        -- rewrite Hc1 in Hx. destruct (subst1_in _ _ _ _ Hx) as [E|[Hx' _]]; [subst; apply in_or_app; right; left; reflexivity|].
+           apply in_or_app. left. apply Hu. apply in_or_app. left. exact Hx'.
+        -- apply in_or_app. left. apply Hu. apply in_or_app. right. exact Hx.
+      * intros x Hx1 Hx2. rewrite Hc1 in Hx1. destruct (subst1_in _ _ _ _ Hx1) as [E|[Hx' Hne]]; [subst; contradiction|].
+        destruct (Hsh x Hx' Hx2) as [E|H]; [congruence | exact H].
+      * intros x Hx HxN. rewrite Hc1 in Hx. destruct (subst1_in _ _ _ _ Hx) as [E|[Hx' Hne]]; [subst; contradiction|].
+        destruct (Hcn x Hx' HxN) as [E|H]; [congruence | exact H].
+      * exact Hpn.
+    + (* it is one of the placeholder's children (or gone) *)
+      assert (HkC : ~ In k (comps_names ck)) by (intros H; apply Hc2 in H; discriminate).
+      assert (Hck' : comps_names ck' = comps_names ck).
+      { rewrite Hc1. rewrite <- (map_id (comps_names ck)) at 2. apply map_ext_in. intros x Hx. unfold subst1.
+        destruct (String.eqb x k) eqn:E; [|reflexivity]. apply String.eqb_eq in E. subst. contradiction. }
+      destruct (rename_first_in_names k new pk Hp) as [Hp1 _].
+      eexists _, _, _, _. split; [reflexivity|]. constructor.
+      * rewrite Hck'. exact Hc.
+      * rewrite Hp1. apply subst1_nodup; assumption.
+      * intros x Hx. apply in_or_app. left. apply Hu0. exact Hx.
+      * intros x Hx. apply in_app_or in Hx. destruct Hx as [Hx|Hx].
+        -- rewrite Hck' in Hx. apply in_or_app. left. apply Hu. apply in_or_app. left. exact Hx.
+        -- rewrite Hp1 in Hx. destruct (subst1_in _ _ _ _ Hx) as [E|[Hx' _]]; [subst; apply in_or_app; right; left; reflexivity|].
+           apply in_or_app. left. apply Hu. apply in_or_app. right. exact Hx'.
+      * intros x Hx1 Hx2. rewrite Hck' in Hx1. rewrite Hp1 in Hx2. destruct (subst1_in _ _ _ _ Hx2) as [E|[Hx' Hne]]; [subst; contradiction|].
+        destruct (Hsh x Hx1 Hx') as [E|H]; [congruence | exact H].
+      * intros x Hx HxN. rewrite Hck' in Hx. destruct (Hcn x Hx HxN) as [E|H]; [subst; contradiction | exact H].
+      * intros x Hx. rewrite Hp1 in Hx. destruct (subst1_in _ _ _ _ Hx) as [E|[Hx' _]]; [subst; right; split; assumption | apply Hpn; exact Hx'].
+  - (* k is not a name of the importing model: nothing happens *)
+    assert (HkN : ~ In k N) by (apply mem_str_false; exact Em).
+    eexists _, _, _, _. split; [reflexivity|]. constructor; try assumption.
+    + intros x Hx1 Hx2. destruct (Hsh x Hx1 Hx2) as [E|H]; [|exact H]. subst x. exfalso.
+      destruct (Hpn k Hx2) as [H|[_ H]]; [apply HkN; apply HP0; exact H | contradiction].
+    + intros x Hx HxN. destruct (Hcn x Hx HxN) as [E|H]; [subst; contradiction | exact H].
+Qed.
+
+Lemma declash_fold_tree : forall fx N keys P0 rest used ck pk done,
+  fx_clash fx = true -> incl P0 N -> incl rest keys ->
+  dtree_inv N keys rest P0 used ck pk ->
+  exists ck' pk' used' done', fold_left (declash_step fx N) rest (FOk (ck, pk, used, done)) = FOk (ck', pk', used', done') /\
+                              dtree_inv N keys [] P0 used' ck' pk'.
+Proof.
+  intros fx N keys P0 rest. induction rest as [|k r IH]; intros used ck pk done Hfx HP0 Hincl Hinv; cbn [fold_left].
+  - eexists _, _, _, _. split; [reflexivity | exact Hinv].
+  - destruct (declash_step_tree fx N keys k r P0 used ck pk done Hfx HP0 (Hincl k (or_introl eq_refl)) Hinv) as [ck1 [pk1 [u1 [d1 [E Hinv1]]]]].
+    rewrite E. apply IH; try assumption. intros x Hx. apply Hincl. right. exact Hx.
+Qed.
+
+(* declash_tree_unique: when the names of the importing model are pairwise distinct, the imported hierarchy has pairwise
+   distinct names and the placeholder's children are components of the importing model, then after the loop all names of the
+   two forests are pairwise distinct, and none of them is a name of the importing model -- except the placeholder's own
+   children that kept their name (they ARE those components) *)
+Theorem declash_tree_unique : forall fx N ck pk, fx_clash fx = true ->
+  NoDup (comps_names ck) -> NoDup (comps_names pk) -> incl (comps_names pk) N ->
+  exists ck' pk' done, declash fx N ck pk = FOk (ck', pk', done) /\
+    NoDup (comps_names ck' ++ comps_names pk') /\
+    (forall x, In x (comps_names ck') -> ~ In x N) /\
+    (forall x, In x (comps_names pk') -> In x N -> In x (comps_names pk)).
+Proof.
+  intros fx N ck pk Hfx Hc Hp HP. unfold declash. fold (declash_keys ck pk).
+  assert (Hinv0 : dtree_inv N (declash_keys ck pk) (declash_keys ck pk) (comps_names pk) (N ++ declash_keys ck pk) ck pk).
+  { constructor; try assumption.
+    - apply incl_refl.
+    - intros x Hx. apply in_or_app. right. apply declash_keys_in. apply in_app_or in Hx. exact Hx.
+    - intros x Hx _. apply declash_keys_in. left. exact Hx.
+    - intros x Hx _. apply declash_keys_in. left. exact Hx.
+    - intros x Hx. left. exact Hx. }
+  destruct (declash_fold_tree fx N (declash_keys ck pk) (comps_names pk) (declash_keys ck pk) _ ck pk [] Hfx HP (incl_refl _) Hinv0)
+    as [ck' [pk' [u' [d' [E [Hc' Hp' _ _ Hsh Hcn Hpn]]]]]].
+  rewrite E. cbn [fbind]. exists ck', pk', d'. split; [reflexivity|]. split.
+  - apply NoDup_app_intro; [exact Hc' | exact Hp'|]. intros x H1 H2. destruct (Hsh x H1 H2).
+  - split.
+    + intros x Hx HxN. destruct (Hcn x Hx HxN).
+    + intros x Hx HxN. destruct (Hpn x Hx) as [H|[H _]]; [exact H | contradiction].
 Qed.
